@@ -131,7 +131,7 @@ def run_case(rng, tier, idx):
     if gamma:
         p.beta = beta; p.gamma = gamma * s2
         A2 = p.calc_kA(silent=True).toarray()
-        c.judge('linear in gamma', float((np.abs((A2 - Abeta) - s2 * Agam) / (abs(s2) * Sg + Sb * 1e-12 + 1e-6 * abs(s2) * Sg.max() + 1e-300)).max()), 1e-10)
+        c.judge('linear in gamma', float((np.abs((A2 - Abeta) - s2 * Agam) / (abs(s2) * Sg + (1 + abs(s2)) * Sb * 1e-5 + 1e-6 * abs(s2) * Sg.max() + 1e-300)).max()), 1e-10)
     # damping matrix
     if rng.random() < 0.5:
         c.tag('clause:cA')
